@@ -25,4 +25,12 @@ def readSeedJ (j : Json) : Except String Json := do
   pure <| Json.mkObj [("seeds", match r.1 with | some l => Json.arr (l.map seqJ).toArray | none => Json.str "ValueError"),
     ("own_spawned", r.2.spawned)]
 
+/-- `{"seeds": [seq…], "order": [task indices]}` → the seeds the result reports and, for each stored run,
+the fingerprint (spawn key) of the seed whose trajectory it is -/
+def collectJ (j : Json) : Except String Json := do
+  let seeds ← (← getArr j "seeds").toList.mapM seqOf
+  let order ← getNatList j "order"
+  let r := collect (fun s => s.key) seeds order
+  pure <| Json.mkObj [("seeds", Json.arr (r.seeds.map seqJ).toArray), ("runs", Json.arr (r.runs.map jNats).toArray)]
+
 end Qv.Drv.C13
